@@ -47,9 +47,12 @@ def gen_programs(rng, pairs_everywhere):
     nthreads = rng.choice((2, 2, 3, 3, 4))
     shared_children = rng.random() < 0.5
     programs, tids = [], []
+    kernel_thread = rng.randrange(nthreads) if rng.random() < 0.35 else None
     for t in range(nthreads):
         tid = 10 + t
         keyspace = {'tid': tid, 'pid': 100 * (t + 1), 'sid': 1000 * (t + 1)}
+        if t == kernel_thread:
+            keyspace['pid'] = 0      # pid 0 is the kernel's: kernel threads are announced and named with it
         if shared_children:
             # several threads announce / sample the same child thread ids (the tid->pid table is shared by design and
             # read only by decoders whose text is the carve-out); the pids they name stay disjoint
@@ -81,6 +84,16 @@ def gen_programs(rng, pairs_everywhere):
                               H.A('MACH_MKRUNNABLE', H.NONE, (other, 31, 0, 1)),
                               H.A('MACH_STKHANDOFF', H.NONE, (0, other, 31, 31))))
             programs[t].insert(rng.randrange(len(programs[t]) + 1), rec)
+    if kernel_thread is not None:
+        # the kernel thread announces a child under pid 0 while another thread's sampler / new-thread record maps the
+        # kernel thread itself to that other thread's (non-zero) pid
+        kt = kernel_thread
+        if not any(a[0] == 'TRACE_DATA_NEWTHREAD' for a in programs[kt]) and len(programs[kt]) < 9:
+            programs[kt] = programs[kt] + H.newthread_pair(7000 + kt, 0, b'kernel_task')
+        o = rng.choice([x for x in range(nthreads) if x != kt])
+        if len(programs[o]) < 10:
+            rec = rng.choice((H.thd_data(100 * (o + 1), 10 + kt), H.A('TRACE_DATA_NEWTHREAD', H.NONE, (10 + kt, 100 * (o + 1), 0, 0))))
+            programs[o].insert(rng.randrange(len(programs[o]) + 1), rec)
     return programs, tids
 
 
